@@ -2284,9 +2284,9 @@ def coverage(agg, conf):
         'distinct_digests': len(agg['digests']),
         'rule': ("a run = seeded history of <= 40 operations (define class/enum, build type, convert, inline "
                  "convert of a temporary type, converter lookup, serialise/convert kept instances, subscript a generic "
-                 "dataclass, drop a root, collect garbage, evict typing's caches, arm a handler fault) executed against "
+                 "dataclass, drop a root, collect garbage - between calls or at a chosen line inside one -, evict typing's caches, arm a handler fault) executed against "
                  "the real pane memo with `id`, gc, typing caches, LRU size and handler faults behind seams; every "
-                 "observable outcome is compared with the same call with memoisation bypassed; distinct = distinct run "
+                 "observable outcome is compared with the same call with memoisation bypassed, on freshly defined type objects and (sampled) in a pristine forked process; distinct = distinct run "
                  "digest; non-trivial = the run recycled at least one address, ran with a full LRU memo, fired a handler "
                  "fault, mutated a handler dict, hit the equal-but-reordered subscript case, or (thread runs) had at least one "
                  "context switch"),
@@ -2301,11 +2301,14 @@ def coverage(agg, conf):
             'typing_evicted_alias_died': c.get('typing_evicted_alias_died', 0),
             'handler_fault_fired': c.get('handler_fault_fired', 0),
             'lru_full_states': c.get('lru_full_states', 0),
+            'gc_inside_call (collection injected at the k-th line of a call)': c.get('gc_inside_call', 0),
+            'type_died_inside_call': c.get('type_died_inside_call', 0),
+            'thread_context_switches': c.get('context_switches', 0),
         },
         'reach_probes': dict(sorted(c.items())),
         'components': {
             'real': ['pane (from /repo working tree): make_converter, KeyCache (unbounded and LRU), converters, dataclasses, _make_subclass',
-                     'typing caches', 'CPython reference counting and cyclic gc (invoked only as explicit operations)',
+                     'typing caches', 'CPython reference counting and cyclic gc (automatic collection off; collections are explicit operations or injected at a chosen line inside a call)',
                      'real threading.Thread objects (released one at a time by the baton scheduler)'],
             'stub': ['id() inside pane modules (sim_id)', 'locks created by / found on the memo object (SimRLock)',
                      'the choice of which thread runs (scheduler, sys.settrace line events in pane/util.py and pane/convert.py)',
